@@ -16,6 +16,18 @@ PAT_NOTE = ("Trusted: Lean kernel + standard axioms; the pattern model (lean/Iso
             "unmodelled in the evidence; floats are exact rationals in the model (dyadic inputs or tolerance 1e-9 in the comparison).")
 
 CHECKS = {
+    "C14": dict(
+        text="Theorems, unbounded in rates, run lengths, wake-up sequences, message sequences: the multiplier accepts iff one rate divides "
+             "the other, after n input ticks exactly the ratio-determined number of output ticks (n*m, ceil(n/d)), evenly spaced, phase "
+             "periodic (no cumulative error), MIDI clock out = 24 per beat, refusal at the first tick; the internal clock loop delivers "
+             "floor(elapsed/tick) ticks for ANY sequence of wake-up readings (caught up, none dropped or doubled), follows a tempo change "
+             "from the next tick; external MIDI clock = one tick per clock message; start/stop/song position.",
+        design="DESIGN.md §3 C14, notes/NOTES-C14.md",
+        note="Trusted: Lean kernel + standard axioms; model lean/IsobarV/Clock/Model.lean tied to isobar/util.py, timelines/clock.py, "
+             "timelines/timeline.py (device loop), io/midi/input.py by the correspondence (virtual time replacing time.time/sleep, fake "
+             "mido ports); real threads, the OS clock, warpers/jitter/accelerate are outside the model: the claim is about the loop's "
+             "bookkeeping under any wake-up sequence.",
+        technique="Lean 4 theorems (phase accumulator arithmetic, folds over wake-up / message sequences) + differential correspondence in virtual time"),
     "C18": dict(
         text="Theorems over Rat for every start, target, duration, envelope fraction in [0,1], ticks-per-beat, range and history: envelope "
              "non-negative with sum = ticks, duration ticks = ceil, a move never raises and arrives exactly after max(1, ceil(d/tick)) "
